@@ -2372,7 +2372,8 @@ def rule_D12(ctx):
 #      instruction that ran last.  So a handler may not decide what to emit from the instruction it reads back: the only reader
 #      of the stream is the code that closes a root with its end-instruction list (T11 decides when that may skip).
 def t20_readers(F, fns=None):
-    from .rules_build import builder_fns, _end_loops
+    from .rules_build import builder_fns, _end_loops, emit_helpers
+    emit_helpers(F)
     out = []
     closers = set()
     fns = list(builder_fns(F)) if fns is None else fns
